@@ -296,24 +296,10 @@ func (v *Verifier) evalObject(env *Env, o types.Object) Val {
 	return Val{}
 }
 
-// localName resolves a source-level local variable at program point env.at.
+// localName resolves a source-level local variable at program point env.at: the closest dominating
+// definition or mention (phi named after the variable, or debug reference).
 func (v *Verifier) localName(env *Env, name string) (Val, bool) {
 	fr := env.fr
-	// header phi with that name
-	for _, ins := range env.at.Instrs {
-		phi, ok := ins.(*ssa.Phi)
-		if !ok {
-			break
-		}
-		if phi.Comment == name {
-			if sv, ok := env.phiSubst[phi]; ok {
-				return sv, true
-			}
-			if val, ok := fr.vals[phi]; ok {
-				return val, true
-			}
-		}
-	}
 	refs := fr.dbgNames[name]
 	// range-over-slice index: the source variable is (hidden phi + 1); at the loop head it denotes the next index
 	for _, d := range refs {
@@ -327,46 +313,74 @@ func (v *Verifier) localName(env *Env, name string) (Val, bool) {
 			}
 		}
 	}
-	var best *ssa.DebugRef
-	for _, d := range refs {
-		b := d.Block()
-		if b == env.at {
+	type cand struct {
+		b      *ssa.BasicBlock
+		pos    int // instruction index in block
+		phi    *ssa.Phi
+		dref   *ssa.DebugRef
+	}
+	var best *cand
+	better := func(c *cand) bool {
+		if best == nil {
+			return true
+		}
+		if c.b == best.b {
+			return c.pos > best.pos
+		}
+		return best.b.Dominates(c.b)
+	}
+	for _, b := range fr.fn.Blocks {
+		if b != env.at && !b.Dominates(env.at) {
 			continue
 		}
-		if !b.Dominates(env.at) {
-			continue
-		}
-		if _, ok := fr.vals[d.X]; !ok {
-			if _, isC := d.X.(*ssa.Const); !isC {
-				if _, isP := d.X.(*ssa.Parameter); !isP {
+		for idx, ins := range b.Instrs {
+			switch x := ins.(type) {
+			case *ssa.Phi:
+				if x.Comment == name {
+					if _, ok := fr.vals[x]; ok || env.phiSubst[x].K != 0 || env.phiSubst[x].A != "" {
+						c := &cand{b: b, pos: idx, phi: x}
+						if better(c) {
+							best = c
+						}
+					}
+				}
+			case *ssa.DebugRef:
+				if b == env.at {
 					continue
 				}
+				if obj := x.Object(); obj == nil || obj.Name() != name {
+					continue
+				}
+				if _, ok := fr.vals[x.X]; !ok {
+					switch x.X.(type) {
+					case *ssa.Const, *ssa.Parameter, *ssa.FreeVar, *ssa.Global, *ssa.Function:
+					default:
+						continue
+					}
+				}
+				c := &cand{b: b, pos: idx, dref: x}
+				if better(c) {
+					best = c
+				}
 			}
-		}
-		if best == nil || best.Block().Dominates(b) {
-			best = d
 		}
 	}
 	if best == nil {
-		// value defined by a phi in a dominating block
-		for _, b := range fr.fn.Blocks {
-			if b != env.at && !b.Dominates(env.at) {
-				continue
-			}
-			for _, ins := range b.Instrs {
-				if phi, ok := ins.(*ssa.Phi); ok && phi.Comment == name {
-					if val, ok := fr.vals[phi]; ok {
-						return val, true
-					}
-				}
-			}
-		}
 		return Val{}, false
 	}
-	val := fr.value(best.X)
-	if best.IsAddr {
+	if best.phi != nil {
+		if best.b == env.at {
+			if sv, ok := env.phiSubst[best.phi]; ok {
+				return sv, true
+			}
+		}
+		return fr.vals[best.phi], true
+	}
+	d := best.dref
+	val := fr.value(d.X)
+	if d.IsAddr {
 		// variable lives in memory
-		pt := best.X.Type().Underlying().(*types.Pointer).Elem()
+		pt := d.X.Type().Underlying().(*types.Pointer).Elem()
 		switch val.K {
 		case KLoc:
 			return v.specLoad(env, val.Loc, pt), true
@@ -452,6 +466,15 @@ func (v *Verifier) specField(env *Env, base Val, name string) Val {
 					return fr.loadLocQuiet(env.cur, fv.Loc, stt.Field(i).Type())
 				}
 				return fv // embedded struct / array: reference
+			}
+		}
+		// promoted fields of embedded structs
+		for i := 0; i < stt.NumFields(); i++ {
+			if stt.Field(i).Embedded() {
+				if _, isStruct := stt.Field(i).Type().Underlying().(*types.Struct); isStruct && structHasField(stt.Field(i).Type(), name) {
+					fv := fr.fieldOf(base.A, pt, i)
+					return v.specField(env, fv, name)
+				}
 			}
 		}
 		encFail("spec: type %s has no field %s", pt, name)
@@ -767,6 +790,9 @@ func (v *Verifier) applySpecFunc(env *Env, sf *SpecFunc, args []SExpr) Val {
 		f := v.ctx.declareFun("G!"+sf.PkgName+"."+sf.Name, sorts, scalarSort(rt))
 		return Val{K: kindOf(rt), T: rt, A: app(f, terms...)}
 	}
+	if t, ok := v.tryDefineFun(env, sf, sfPkg, avals); ok {
+		return t
+	}
 	for _, s := range env.callStack {
 		if s == sf.PkgName+"."+sf.Name {
 			encFail("spec: recursive spec function %s (not supported; use a ghost function with axioms)", sf.Name)
@@ -806,4 +832,80 @@ func flattenVal(a Val) (terms []Term, sorts []string) {
 	}
 	encFail("spec: cannot pass kind %v to a ghost function", a.K)
 	return
+}
+
+// tryDefineFun: spec functions over scalars that do not read the heap become SMT define-fun's (keeps VCs small).
+func (v *Verifier) tryDefineFun(env *Env, sf *SpecFunc, sfPkg *types.Package, avals []Val) (res Val, ok bool) {
+	key := sf.PkgName + "." + sf.Name
+	for _, a := range avals {
+		if a.K != KInt && a.K != KBool {
+			return Val{}, false
+		}
+	}
+	if st, seen := v.defFuns[key]; seen {
+		if st == "" {
+			return Val{}, false
+		}
+	} else {
+		v.defFuns[key] = ""
+		func() {
+			defer func() {
+				if r := recover(); r != nil {
+					if _, isEnc := r.(EncError); !isEnc {
+						if _, isRT := r.(error); !isRT {
+							panic(r)
+						}
+					}
+				}
+			}()
+			ne := &Env{fr: nil, vars: map[string]Val{}, cur: nil, old: nil, pkg: sfPkg, callStack: append(append([]string{}, env.callStack...), key)}
+			var formals []string
+			for i, p := range sf.Params {
+				pt := v.resolveType(sfPkg, p.Type)
+				nm := sym("a!" + p.Name)
+				formals = append(formals, "("+nm+" "+scalarSort(pt)+")")
+				ne.vars[p.Name] = Val{K: avals[i].K, T: pt, A: nm}
+			}
+			nd := len(v.ctx.decls)
+			na := len(v.ctx.asserts)
+			body := v.evalSpec(ne, sf.Body)
+			if len(v.ctx.asserts) != na {
+				// evaluation asserted facts (heap reads etc.): not a closed function
+				return
+			}
+			_ = nd
+			rt := v.resolveType(sfPkg, sf.Result)
+			fname := sym("S!" + key)
+			if strings.Contains(body.A, "!q") || true {
+				v.ctx.decls = append(v.ctx.decls, fmt.Sprintf("(define-fun %s (%s) %s %s)", fname, strings.Join(formals, " "), scalarSort(rt), body.A))
+				v.ctx.declared[fname] = "define-fun"
+				v.defFuns[key] = fname
+			}
+		}()
+		if v.defFuns[key] == "" {
+			return Val{}, false
+		}
+	}
+	var terms []Term
+	for _, a := range avals {
+		terms = append(terms, a.A)
+	}
+	rt := v.resolveType(sfPkg, sf.Result)
+	return Val{K: kindOf(rt), T: rt, A: app(v.defFuns[key], terms...)}, true
+}
+
+func structHasField(t types.Type, name string) bool {
+	stt, ok := t.Underlying().(*types.Struct)
+	if !ok {
+		return false
+	}
+	for i := 0; i < stt.NumFields(); i++ {
+		if stt.Field(i).Name() == name {
+			return true
+		}
+		if stt.Field(i).Embedded() && structHasField(stt.Field(i).Type(), name) {
+			return true
+		}
+	}
+	return false
 }
